@@ -3,6 +3,7 @@ package kernel
 import (
 	"runtime"
 	"sync"
+	"sync/atomic"
 )
 
 // Goroutine identities for the auto-instrumented build flavour. Hand-placed hooks pass the actor id
@@ -14,13 +15,44 @@ var (
 	goidWho  = map[uint64]int{}
 	autoMode bool
 	spawnSeq int
+	lockHeld = map[uint64]int{}
 )
+
+// Progress is incremented by the scheduler and by every yield; a watchdog outside the bubble uses it to
+// tell a stalled run (an actor spinning or blocked on a mutex while its peer is parked) from a slow one.
+var Progress atomic.Uint64
+
+// LockDepth is called by the auto-instrumented build after a Lock (+1) and before an Unlock (-1). While a
+// goroutine holds a lock it is never parked: its yields return immediately, so critical sections are
+// atomic for the scheduler and no other actor can end up blocked on a sync.Mutex (which synctest does not
+// recognise as blocked).
+func LockDepth(delta int) {
+	g := curGoid()
+	goidMu.Lock()
+	lockHeld[g] += delta
+	if lockHeld[g] <= 0 {
+		delete(lockHeld, g)
+	}
+	goidMu.Unlock()
+}
+
+func holdsLock() bool {
+	if !autoMode {
+		return false
+	}
+	g := curGoid()
+	goidMu.Lock()
+	h := lockHeld[g] > 0
+	goidMu.Unlock()
+	return h
+}
 
 // EnableAuto switches goroutine-identity tracking on for the current run and forgets earlier bindings.
 func EnableAuto() {
 	goidMu.Lock()
 	autoMode = true
 	goidWho = map[uint64]int{}
+	lockHeld = map[uint64]int{}
 	spawnSeq = 0
 	goidMu.Unlock()
 }
